@@ -10,7 +10,7 @@ import (
 )
 
 func genC17(t *rapid.T) C17Scn {
-	s := C17Scn{N: rapid.IntRange(2, 3).Draw(t, "n"), Rounds: rapid.SampledFrom([]int{1, 3, 3}).Draw(t, "rounds")}
+	s := C17Scn{N: rapid.IntRange(2, 3).Draw(t, "n"), Rounds: rapid.SampledFrom([]int{1, 3, 3}).Draw(t, "rounds"), Persist: rapid.Bool().Draw(t, "persist")}
 	n := rapid.IntRange(1, 12).Draw(t, "nops")
 	// a listener early on makes the dial operations meaningful
 	s.Ops = append(s.Ops, C17Op{K: "listen", A: rapid.IntRange(0, 2).Draw(t, "lnode")})
@@ -23,8 +23,8 @@ func genC17(t *rapid.T) C17Scn {
 
 func TestC17(t *testing.T) {
 	st := vx.NewStats("C17", "lifecycle", "real chains of 2-3 nodes (QUIC idle timeout lowered to 2 s); 1-12 operations from {ListenPacket (+advertise), PacketConn.Close once/twice, close a socket with 1-3 parked deliveries nobody reads, "+
-		"close a socket while 1-4 senders blast it, Listen, Listener.Close, Dial + echo + {Close, CloseConnection, peer closes first, repeated closes, leave open}, Dial to unbound service / unknown node / cancelled mid-dial, "+
-		"Ping ok / no route / cancelled}, the whole list executed 1 or 3 times on the same mesh, then everything still open is closed and all nodes shut down; oracle: process alive, every close-like call returns within 20 s, "+
+		"close a socket while 1-4 senders blast it, Listen, Listener.Close, Dial + echo + {Close, CloseConnection, peer closes first, repeated closes, leave open, dialler cancels reading then the acceptor closes}, Dial to unbound service / unknown node / cancelled mid-dial, "+
+		"Ping ok / no route / cancelled}, the whole list executed 1 or 3 times on the same mesh (in half of the scenarios with one stream listener that stays open throughout and takes most of the connections), then everything still open is closed and all nodes shut down; oracle: process alive, every close-like call returns within 20 s and every ListenPacket / Listen / Ping within 25 s, "+
 		"after settling (<= 40 s) each node's listener registry holds exactly the services the model says are open (zero at the end), receptor/quic goroutines do not grow from round 1 to round 3, none survive Shutdown; "+
 		"non-trivial = a successful dial that was closed, plus a close with traffic in flight, a double close or a listener close; distinct by canonical JSON")
 	defer st.Flush()
